@@ -26,7 +26,9 @@ KINDS = ["sphere", "layered", "cluster_mie", "cluster_ms", "spheroid", "cylinder
 # T-matrix floor: ampld.lp.f nudges every angle by EPS=1e-7 rad away from pi/2 and pi ("IF (PHIL.LT.PIN) PHIL=PHIL+EPS",
 # else -EPS): a point mathematically on such a line lands on either side by rounding, a step of 2e-7 rad in the
 # direction at which the amplitude matrix is evaluated
-TOL = {"mie": 1e-10, "tmatrix": 2e-6, "mielens": 1e-10, "amielens": 1e-10, "lens": 1e-10}
+# Mie floor: the full-radial-dependence fields come from SBESJY, which normalises its recurrence by j_0(kr) down to
+# |j_0| = sqrt(ACCUR) = 1e-7 before switching to j_1: just above that threshold the relative error is eps/1e-7 = 2e-9
+TOL = {"mie": 1e-8, "tmatrix": 2e-6, "mielens": 1e-10, "amielens": 1e-10, "lens": 1e-10}
 # Multisphere option sets: floor = 3*sqrt(eps) for the iteration stopping rule (eps bounds the squared residual),
 # and for the converged set the truncation error of the cluster expansion at the Wiscombe order (~1e-7, one order
 # more or less changes the field by that much)
@@ -102,6 +104,27 @@ def run(case):
             return Outcome(None, False, labels + ["MultisphereFailure"], skipped=True)
         raise
     floor = MS_OPTS[case.get("ms_opts", "default")][1] if t == "ms" else TOL[t]
+    if not (t in ("ms", "tmatrix") or sc["kind"] == "layered"):
+        # closed-form theories: measure the case's own response to one ulp only when the floor is exceeded
+        # (narrow resonances of large spheres amplify a rounding of the size parameter)
+        def _worst():
+            w = 0.0
+            for key in a:
+                va, vb = np.asarray(a[key]), np.asarray(b[key])
+                if key == "cross_sections":
+                    continue
+                w = max(w, np.abs(vb - va).max() / max(np.abs(va).max(), 1.0 if key == "holo" else 1e-300))
+            return w
+        if _worst() > floor:
+            for j in (1, -1, 3):
+                c = _all_results(case, dict(o, wl=o["wl"] * (1 + j * 2.0 ** -52)))
+                for key in a:
+                    va, vc = np.asarray(a[key]), np.asarray(c[key])
+                    if key == "cross_sections":
+                        noise = max(noise, np.max(np.abs(vc[:3] - va[:3])) / abs(va[2]), abs(vc[3] - va[3]))
+                    else:
+                        noise = max(noise, np.abs(vc - va).max() / max(np.abs(va).max(), 1e-300))
+            labels.append("measured_one_ulp_response")
     tol = max(floor, 30 * noise) * TOLX
     if noise > 1e-3:
         # the case itself is numerically unstable to one ulp: nothing can be concluded from it
